@@ -273,6 +273,7 @@ fn points(thorough: bool) -> Vec<Point> {
         let w = family::WIDTHS[p.d[0]];
         (n <= 64 || (n == 128 && p.d[5] >= 6 && w <= 2)) && w <= 17
     };
+    let shape: [usize; 5] = [2, 3, 5, 6, 9];
     let mut out = vec![base];
     for &i in dims.iter() {
         for v in 1..family::dim_size(i) {
@@ -286,13 +287,25 @@ fn points(thorough: bool) -> Vec<Point> {
                     continue;
                 }
                 for w in 1..family::dim_size(j) {
-                    if !thorough && (v + w + i + j) % 5 != 0 {
-                        continue;
-                    }
                     let mut q = p;
                     q.d[j] = w;
                     if ok(&q) {
                         out.push(q);
+                    }
+                    // thorough: triple deviations over the dimensions that select the constraint shapes
+                    if thorough && shape.contains(&i) && shape.contains(&j) {
+                        for &k in shape.iter() {
+                            if k <= j {
+                                continue;
+                            }
+                            for x in 1..family::dim_size(k) {
+                                let mut r = q;
+                                r.d[k] = x;
+                                if ok(&r) {
+                                    out.push(r);
+                                }
+                            }
+                        }
                     }
                 }
             }
@@ -306,11 +319,11 @@ fn points(thorough: bool) -> Vec<Point> {
 pub fn subs(run: &Arc<Run>) -> Vec<Arc<dyn Sub>> {
     let thorough = run.tier().is_thorough();
     let seed = run.seed();
-    run.rule("computation descriptions of the C01 family with n <= 64 (n = 128 for 64-value sequences), all rules (incl. periodic columns of cycle 2, 4, n), exemptions, exempt-row fills, assertion sets (single / periodic / sequences below and above the representation switch, non-zero first steps), auxiliary kinds (running sums with 0-3 random elements, Lagrange kernel column), blowups (constraint-evaluation blowup smaller than the LDE blowup) and extensions, as single and double deviations, x (field, hasher) pairs; for each: coefficients and auxiliary randomness are seeded values, DefaultTraceLde -> DefaultConstraintEvaluator::evaluate -> CompositionPoly::new is the real pipeline, and sum_i x^(i*n) H_i(x) is compared with the reference evaluation of the definition (trace polynomials by Lagrange interpolation, constraints, divisors as products over the enforcement steps, assertion value interpolants, library's coefficient order) at D+1 distinct points off the trace domain, D = constraint-evaluation domain size >= degree of both sides, i.e. as polynomials, plus extension-field points; non-trivial = description whose identity was checked at more than D points");
+    run.rule("computation descriptions of the C01 family with n <= 64 (n = 128 for 64-value sequences), all rules (incl. periodic columns of cycle 2, 4, n), exemptions, exempt-row fills, assertion sets (single / periodic / sequences below and above the representation switch, non-zero first steps), auxiliary kinds (running sums with 0-3 random elements, Lagrange kernel column), blowups (constraint-evaluation blowup smaller than the LDE blowup) and extensions, as single and double deviations (thorough: also triple deviations over trace length, exemptions, assertion set, auxiliary kind and blowup), x (field, hasher) pairs; for each: coefficients and auxiliary randomness are seeded values, DefaultTraceLde -> DefaultConstraintEvaluator::evaluate -> CompositionPoly::new is the real pipeline, and sum_i x^(i*n) H_i(x) is compared with the reference evaluation of the definition (trace polynomials by Lagrange interpolation, constraints, divisors as products over the enforcement steps, assertion value interpolants, library's coefficient order) at D+1 distinct points off the trace domain, D = constraint-evaluation domain size >= degree of both sides, i.e. as polynomials, plus extension-field points; non-trivial = description whose identity was checked at more than D points");
     run.assume("reference arithmetic; the verifier-side definition is tied to this one through C01 (OOD consistency check at the drawn point on every proof)");
     let pts = Arc::new(points(thorough));
     let np = pts.len() as u64;
-    let pairs: Vec<usize> = if thorough { vec![0, 3, 6, 8, 9, 11] } else { vec![0, 8, 11] };
+    let pairs: Vec<usize> = if thorough { (0..12).collect() } else { vec![0, 8, 11] };
     let mut subs: Vec<Arc<dyn Sub>> = vec![];
     for pair in pairs {
         let (p1, p2) = (pts.clone(), pts.clone());
